@@ -30,14 +30,19 @@ fn remove_and_check<K: Kernel<D, Scalar = f64>, const D: usize>(rep: &Report, cn
     cn.removals.fetch_add(1, Ordering::Relaxed);
     let out = model::apply(&mut d, &Op::Remove { v }, &[]);
     rep.outcome(&format!("Remove:{}", out.class()));
-    let repair_on = format!("{:?}", dt.delaunay_repair_policy()) != "Never";
+    let policy = format!("{:?}", dt.delaunay_repair_policy());
+    let repair_on = policy != "Never";
+    let every_n = policy.starts_with("EveryN");
+    // Under EveryN(n) an earlier insertion may legitimately have left a violation that a removal elsewhere does not
+    // touch: the Delaunay level is demanded of the result only when the state before the removal was Delaunay.
+    let judge_delaunay = repair_on && (!every_n || refval::delaunay_violations(&before, true).is_empty());
     // is the victim on the boundary of the complex (a hull vertex)?
     let on_hull = {
         let fm = refval::facet_map(&before);
         fm.iter().any(|(f, inc)| inc.len() == 1 && f.contains(&victim.key))
     };
     let _ = family;
-    let sig = |check: &str, extra: Value| json!({"check": check, "D": D, "victim": if on_hull { "hull" } else { "interior" }, "repair": repair_on, "detail": extra});
+    let sig = |check: &str, extra: Value| json!({"check": check, "D": D, "victim": if on_hull { "hull" } else { "interior" }, "repair": if every_n { json!("EveryN") } else { json!(repair_on) }, "detail": extra});
     match out {
         Outcome::Ok { .. } => {
             cn.ok.fetch_add(1, Ordering::Relaxed);
@@ -67,7 +72,7 @@ fn remove_and_check<K: Kernel<D, Scalar = f64>, const D: usize>(rep: &Report, cn
                 rep.violation(Finding { signature: sig("reference_validity", json!({"level": level, "class": class})), description: format!("remove_vertex({:?}) returned Ok but the result fails the independent reference: {first}", victim.c), replay: replay() });
                 return None;
             }
-            if repair_on && after.n_cells() > 0 {
+            if judge_delaunay && after.n_cells() > 0 {
                 if let Some(&(ci, vi)) = refval::delaunay_violations(&after, true).first() {
                     rep.violation(Finding {
                         signature: sig("empty_circumsphere", json!({"mechanism": refval::violation_mechanism(&after)})),
@@ -103,7 +108,7 @@ fn unknown_check<K: Kernel<D, Scalar = f64>, const D: usize>(rep: &Report, dt: &
 fn run_set<K: Kernel<D, Scalar = f64>, const D: usize>(rep: &Report, cn: &Cn, kname: &str, family: &str, pts: &[[f64; D]], guarantees: &[TopologyGuarantee]) {
     for &g in guarantees {
         let Some(seed) = corpus::build::<K, D>(pts, g) else { continue };
-        for rp in [0u8, 1] {
+        for rp in [0u8, 1, 2] {
             let mut dt = seed.clone();
             model::apply(&mut dt, &Op::SetRP(rp), &[]);
             let rj = |v: usize| json!({"D": D, "kernel": kname, "family": family, "points": pts.iter().map(|p| p.to_vec()).collect::<Vec<_>>(), "guarantee": format!("{g:?}"), "repair_policy": rp, "remove": [v]});
@@ -136,7 +141,7 @@ fn run_family<const D: usize>(rep: &Report, cn: &Cn, family: &str, alphabet: &[[
         run_set::<FastKernel<f64>, D>(rep, cn, "fast", family, pts, guarantees);
         run_set::<RobustKernel<f64>, D>(rep, cn, "robust", family, pts, guarantees);
     });
-    bounds.push(json!({"D": D, "family": family, "alphabet": alphabet.len(), "subset_sizes": format!("{sizes:?}"), "point_sets": sets.len(), "kernels": 2, "guarantees": guarantees.len(), "repair": ["on", "off"]}));
+    bounds.push(json!({"D": D, "family": family, "alphabet": alphabet.len(), "subset_sizes": format!("{sizes:?}"), "point_sets": sets.len(), "kernels": 2, "guarantees": guarantees.len(), "repair": ["EveryInsertion", "Never", "EveryN(2)"]}));
 }
 
 // ---- histories: insert / remove interleavings ----
@@ -189,7 +194,7 @@ where
     let Some(base) = corpus::build::<K, D>(seed, TopologyGuarantee::PLManifold) else { return };
     let m = M::<K, D> { rep, cn, kname, label: label.to_string(), alphabet, _k: std::marker::PhantomData };
     let mut seeds = Vec::new();
-    for rp in [0u8, 1] {
+    for rp in [0u8, 1, 2] {
         let mut dt = base.clone();
         model::apply(&mut dt, &Op::SetRP(rp), &[]);
         seeds.push((St { dt }, vec![Op::SetRP(rp)]));
@@ -244,7 +249,7 @@ fn main() {
         "removals_ok_with_cells_left": nt,
         "removals_err": cn.err.load(Ordering::Relaxed),
         "exhaustive": true,
-        "rule": "every vertex (interior, hull, degree-(D+1) star, one of the last D+2) of the batch-constructed triangulation of every subset of the per-dimension alphabets is removed, with automatic repair on and off, and (small sets) every vertex of every successor again; plus BFS insert/remove histories from seeds; Ok results judged by the independent reference and the exact oracle, unknown vertex => Ok(0) and unchanged",
+        "rule": "every vertex (interior, hull, degree-(D+1) star, one of the last D+2) of the batch-constructed triangulation of every subset of the per-dimension alphabets is removed, with the repair policy EveryInsertion, Never and EveryN(2) (insertion counter of either parity), and (small sets) every vertex of every successor again; plus BFS insert/remove histories from seeds; Ok results judged by the independent reference and the exact oracle, unknown vertex => Ok(0) and unchanged",
         "bounds": bounds,
     });
     let code = rep.finish("model_checking", cov, vec!["exact oracle self-check passed".into()], args.part.as_deref());
